@@ -396,6 +396,21 @@ pub fn cases_of(tm: &TraitMeta, mm: &MethodMeta, thorough: bool) -> Vec<Case> {
             }
         }
     }
+    // (10) thorough, two arguments: the full product of the complete (quick) value lists, so that
+    //      the 64-byte boundary falls at every offset inside either argument for every kind pair
+    if thorough && !big && mm.args.len() == 2 {
+        let (la, lb) = (arg_values(mm.args[0], false), arg_values(mm.args[1], false));
+        if la.len() * lb.len() <= 20_000 {
+            for a in &la {
+                for b in &lb {
+                    let mut c = base.clone();
+                    c.args[0] = a.clone();
+                    c.args[1] = b.clone();
+                    out.push(c);
+                }
+            }
+        }
+    }
     // (8) the implementation's destructor panics when the connection is dropped (one signature
     //     per return kind is enough: the destructor does not depend on the method called)
     if mm.args.is_empty() && mm.group == "C" {
